@@ -87,7 +87,9 @@ def checkEvent (frames : Array Frame) (acc : Acc) (i : Nat) (j : Json) : Except 
   let mut acc2 := acc1
   if mutated then
     let afterMut ← heapOf frames (← getArr natOf? j "after_mut")
-    mutOk := frameB before (afterMut.take n) argRefs
+    -- changing the result must not change ANY cell that existed before the call (arguments, other charts, class-level
+    -- defaults): `copy_result_mutation_frame_all`
+    mutOk := frameB before (afterMut.take n) (List.range n)
     let ch := changed post afterMut
     mutChanged := ch.filter (· < n)
     mutWithin := mutChanged.all (fun r => shareable.contains r)
@@ -104,7 +106,7 @@ def checkEvent (frames : Array Frame) (acc : Acc) (i : Nat) (j : Json) : Except 
   match j.getObjVal? "after_deep" with
   | .ok (Json.arr a) =>
     let afterDeep ← heapOf frames (← a.toList.mapM natOf?)
-    deepOk := frameB before (afterDeep.take n) argRefs
+    deepOk := frameB before (afterDeep.take n) (List.range n)
     deepChanged := (changed post afterDeep).filter (· < n)
   | _ => pure ()
   let o := obj [("known", Json.bool known), ("within", Json.bool within), ("frame_ok", Json.bool frameOk),
